@@ -9,6 +9,8 @@ wt=/tmp/mt${MT_SUFFIX}/$name
 rm -rf "$wt"; mkdir -p /tmp/mt${MT_SUFFIX}
 git -C /repo worktree add -q --detach "$wt" HEAD || exit 2
 trap 'git -C /repo worktree remove --force "$wt" 2>/dev/null; rm -rf "$wt" /tmp/mt-out${MT_SUFFIX}/$name' EXIT INT TERM
+pin=$(python3 -c "import json;m=json.load(open(\"$V/seeded/$name/meta.json\"));print(m['base_commit'] if m.get('use_base_commit') else '')")
+[ -n "$pin" ] && { echo "pinned to base commit $pin (a later repair removes what this change needs)"; git -C "$wt" checkout -q $pin; }
 git -C "$wt" apply $V/seeded/$name/patch.diff 2>/dev/null || { b=$(python3 -c "import json;print(json.load(open(\"$V/seeded/$name/meta.json\"))[\"base_commit\"])"); echo "patch does not apply to HEAD: using base commit $b"; git -C "$wt" checkout -q $b && git -C "$wt" apply $V/seeded/$name/patch.diff || { echo "patch does not apply"; exit 2; }; }
 cd $V
 for p in "$@"; do
